@@ -17,7 +17,7 @@ class C06(Prop):
     id = "C06"
     level = "exploration"
     title = "`the` returns the unique solution or raises, consistently with `an`"
-    campaigns = {"quick": [("main", 20000, 60)], "thorough": [("main", 300000, 1500)]}
+    campaigns = {"quick": [("main", 60000, 60)], "thorough": [("main", 1500000, 1500)]}
     chunk = 50
     rule = ("seeded descriptions in which every variable is selected (entity(x, c(x)) / set_of([x,y], c(x,y)) with "
             "joins, negation, predicates, nested sub-queries) over 1-4 element domains so that 0, 1 and >= 2 solutions "
